@@ -181,6 +181,7 @@ pub struct SimCore {
     pub knobs: SchedKnobs,
     progress: Cell<u64>,
     idle_ticks: Cell<u32>,
+    idle_mark: Cell<u64>,
     pub probes: RefCell<BTreeMap<&'static str, u64>>,
     /// Virtual time of every `dispatch` probe (hook H5: an attempt handed to the executor).
     pub dispatch_times: RefCell<Vec<u64>>,
@@ -232,6 +233,7 @@ impl SimCore {
             knobs,
             progress: Cell::new(0),
             idle_ticks: Cell::new(0),
+            idle_mark: Cell::new(0),
             probes: RefCell::new(BTreeMap::new()),
             dispatch_times: RefCell::new(Vec::new()),
             stats: RefCell::new(SchedStats::default()),
@@ -460,6 +462,15 @@ impl cucumber::verif::SimHooks for Hooks {
         Box::pin(self.0.sleep(ns, LABEL_RUNNER_SLEEP))
     }
     fn idle_tick(&self) {
+        // Turns of the idle branch within one root poll *between which nothing observable happened*: behind the
+        // pipeline's feed loop one root poll can span a long stretch of the run (the loop re-polls the runner
+        // for every event it hands to the writer; a backlog of 20 000 queued log events means 20 000 re-polls,
+        // each of which may pass the idle branch once, properly yielding every time).
+        let p = self.0.progress_count();
+        if p != self.0.idle_mark.get() {
+            self.0.idle_mark.set(p);
+            self.0.idle_ticks.set(0);
+        }
         let n = self.0.idle_ticks.get() + 1;
         self.0.idle_ticks.set(n);
         self.0.probe("idle_branch");
